@@ -6,7 +6,7 @@ TRUST = "refchess (independent ~700-line mailbox model of the FIDE rules, valida
 
 CHECKS = {
  "C01": dict(
-   technique="explicit-state exploration: BFS over the engine's own make_move from 45 seeds + complete enumeration of bounded-material families (kings+1, en-passant, castling, promotion), each state compared with a reference model",
+   technique="explicit-state exploration: BFS over the engine's own make_move from 45 seeds + complete enumeration of bounded-material families (kings+1, en-passant, castling, promotion), each state compared with a reference model; six seeds with 133-218 legal moves",
    text="Exhaustive bounded model checking: every position of F-REACH (BFS depth 3/2 quick, 4/3 thorough), all legal kings+1 positions, all en-passant constellations with one extra man, castling constellations with 1 (2) enemy men, promotion family (thorough: all kings+2 positions); in each the engine's move list with capture/en-passant/castling/promotion flags is compared as a multiset with the reference legal moves and the in-check verdict with the reference. Right level because the rule interactions named in the property need at most kings + 3-4 men, all of which are enumerated, not sampled.",
    design="5/C01"),
  "C02": dict(
@@ -14,11 +14,11 @@ CHECKS = {
    text="Every transition of the position sweep and every nested make / null-move / take-back sequence up to the stated depth on one Game object: the result of make_move is compared field by field with the reference rules (en-passant target by the tolerant rule), every take-back with a full snapshot (placement, side, rights, ep, clocks, key, accumulators, bitboards, history length), and the three board views on all 64 squares after every operation; the null move is tried before and after the real moves of a node; one scripted reversible game of 300 (700) plies with every legal move made and taken back at every ply (clock and history length past 256); F-CORNER and F-ABSURD families.",
    design="5/C02"),
  "C03": dict(
-   technique="exhaustive operation-sequence DFS + position BFS with key recomputation after every operation, a key->identity collision map over all states met, and all 838^2 pairs of key components",
+   technique="exhaustive operation-sequence DFS + position BFS with key recomputation after every operation, a key->identity collision map over all states met, in both directions (one key per identity, one identity per key), and all 838^2 pairs of key components",
    text="The carried key equals the from-scratch key after every make, null move and take-back of every explored sequence (null moves with an en-passant target included, vacuity-guarded); two identities under one key anywhere in the exploration is a violation; all 838 components recovered through the public API are pairwise distinct and non-zero (exhaustive). Null move before and after the real moves of every node (hidden state across take-backs), full operation trace as replay case.",
    design="5/C03"),
  "C04": dict(
-   technique="exhaustive enumeration of search sessions (complete 3-man endgame families, tactical roots x depth x hash size x prior searches x start generation) and of environment deviations (every clock-read index as expiry point) on the real search in a checked build",
+   technique="exhaustive enumeration of search sessions (complete 3-man endgame families, tactical roots x depth x hash size x prior searches x start generation) and of environment deviations (every clock-read index as expiry point) on the real search in a checked build; en-passant twin positions searched on one table",
    text="Every search of every enumerated session runs in a build with overflow checks and debug assertions inside catch_unwind with a deterministic node budget: it must terminate, not panic and return a move that is legal by the reference rules. Sessions chain searches on one persistent state (non-initial states, generation counter wrap, hash sizes from the advertised minimum); for time-limited searches every clock-read index at which the limit expires is executed.",
    design="5/C04"),
  "C05": dict(
@@ -36,7 +36,7 @@ CHECKS = {
    text="Complete, not bounded: every subset of every square's relevant blocker mask (mask recomputed from geometry) plus occupancies differing only in irrelevant bits, every table index checked against the table length through a read-only hook; knight, king, pawn tables and all 64x64 between entries against their geometric definitions.",
    design="5/C07"),
  "C08": dict(
-   technique="exhaustive enumeration of search sessions (as C04, deeper) with a monitor on every info line of every iteration, in process and on the text printed by the real command loop and by the optimised binary",
+   technique="exhaustive enumeration of search sessions (as C04, deeper) with a monitor on every info line of every iteration (also of searches that are then stopped or run out of time, at every stop instant), in process and on the text printed by the real command loop and by the optimised binary",
    text="Every info line of every search of the enumerated sessions (and every printed `info` line of 76 roots through the command loop under seven equivalent phrasings of the depth limit, and of the optimised binary): PV non-empty and legal move by move on the reference model, depths 1,2,3.. within the limit, every mate announcement (for or against) with exactly the matching number of plies and ending in checkmate of the announced side. Sessions include prior table contents (same and other positions, ucinewgame, generation wrap).",
    design="5/C08"),
  "C09": dict(
@@ -48,11 +48,11 @@ CHECKS = {
    text="For every position of the BFS families and every configuration of hash move (any legal move), killer slots (filled through try_push: legal quiets, captures, promotions and moves that are not legal here), counter move (keyed by the real previous move), history pattern and ply with at most D deviations from the default: the stream of MovePicker::next equals the legal moves each once; the captures-only stream is duplicate-free, legal and contains all captures and queen promotions.",
    design="5/C10"),
  "C11": dict(
-   technique="exhaustive path enumeration (no state merging) from small seeds with start clocks {0,3,97..100} against a history oracle; complete material families for the material rule",
+   technique="exhaustive path enumeration (no state merging) from small seeds with start clocks {0,3,97..100} against a history oracle; complete material families for the material rule; a complete family of roots with a dead position just beyond the search horizon",
    text="Every node of every path up to length 5 (thorough 7) from 15 seeds (plus 42 scripted rook-cycle histories of up to 470 plies with recurrence distances 4..112, and the fifty-move verdict at clocks 0/99/100/101/150 on every state of the sweep; incl. rook-pawn double steps beside an enemy pawn on the opposite edge and all four rooks at home with all rights) x up to 6 start clocks: is_repeated_position() and the fifty-move verdict compared with the list of identities since the last capture/pawn move (both en-passant conventions; unasserted where they disagree). Material rule on all kings+0/1 positions, a complete kings+3-minors slice and every state of the sweep.",
    design="5/C11"),
  "C12": dict(
-   technique="exhaustive enumeration of sessions (all sequences up to length 3 over searches / ucinewgame / set hash) on independently built states under four clock behaviours; differential oracle <H, ucinewgame, P> = <P on fresh> from table generations 0/253/254/255; the real command loop; separate optimised processes; and exhaustive preemption-bounded schedule enumeration (tvc-sched) of ucinewgame racing the finishing search thread",
+   technique="exhaustive enumeration of sessions (all sequences up to length 3 over searches / ucinewgame / set hash) on independently built states under four clock behaviours; differential oracle <H, ucinewgame, P> = <P on fresh> from table generations 0/253/254/255; the real command loop; separate optimised processes; and exhaustive preemption-bounded schedule enumeration (tvc-sched) of ucinewgame racing the finishing search thread and of consecutive searches (E6-DETERMINISM: the lines printed under every schedule equal those of the schedule without preemptions)",
    text="Traces (best move, every info field except time/nps, table statistics) of every session are identical across independently built states, a real, a frozen, a +1ms/read and a +1h/read clock, and concurrent execution; for every history H and probe P the searches after ucinewgame equal those of a freshly constructed state with the hash size then in force, and generation, occupancy and all history scores equal a fresh state; scripts through the real Uci loop compare the last go with a fresh engine.",
    design="5/C12"),
  "C13": dict(
@@ -68,7 +68,7 @@ CHECKS = {
    text="After every make, null move and take-back of every explored sequence, and in every state of the sweep (promotions, en passant, castling and F-HEAVY included), the carried phase counter and piece-square accumulator equal IncrementalEvalFields::init(&board) and separate 64-bit sums of the per-piece contributions (where they fit the packed halves); eval(game object) equals eval(position re-read from its FEN) at every node and after every take-back (path independence); F-ABSURD (20..56 queens or rooks of one colour) and a 300-ply scripted game.",
    design="5/C15"),
  "C16": dict(
-   technique="explicit-state exploration over positions reached by moves (BFS) and enumerated families incl. material far outside normal play, each with its colour-mirrored twin; exhaustive lattice of (mg, eg, phase) triples",
+   technique="explicit-state exploration over positions reached by moves (BFS) and enumerated families incl. material far outside normal play, each with its colour-mirrored twin; exhaustive lattice of (mg, eg, phase) triples; one list of 17 864 pawn constellations evaluated in two opposite orders on fresh threads (order independence)",
    text="Every state: eval equals eval of the mirrored twin built from scratch, no panic, outside the mate range, between the evaluations with phase forced to 24 and to 0; the blend function on a stride-257 lattice x phase 0..96 and the full square [-300,300]^2 x phase; pack/unpack round trip (thorough: all pairs in [-32767,32767]^2).",
    design="5/C16"),
  "C17": dict(
